@@ -241,7 +241,7 @@ func runC01(args []string) int {
 	r := rand.New(rand.NewSource(seed))
 	rep := newReport("C01", seed)
 	rep.Rule = "non-trivial := Prometheus rejects the file or pint blocks it (Bug/Fatal); distinct by content"
-	cw := newCaseWriter(".", "Model.Yaml Model.Parser Run.C19 Run.C01", 50)
+	cw := newCaseWriter(".", "Model.Yaml Model.Parser Run.C19 Run.C01", 100)
 	cw.preamble = "Open Scope N_scope.\n"
 	keepCases := n <= 1000
 	workDir, _ := filepath.Abs("files")
